@@ -147,11 +147,33 @@ func captureCorpus(thorough bool) []wireBody {
 				End: refwire.End{Code: 0, Meta: http.Header{"X-Trail": {"tv"}}}, Header: http.Header{"X-Head": {"hv"}}}
 			st, hd, body, trl := spec.Build()
 			out = append(out, wireBody{Name: "refwire-ok", Proto: p, Kind: kind, Status: st, Header: hd, Body: body, Trailer: trl})
+			if p == PConnect && kind == KUnary {
+				// the same as an uncompressed JSON document
+				js := &refwire.RespSpec{P: wireProto(p), Unary: true, ContentType: contentType(p, kind, true),
+					Msgs: [][]byte{codecMarshal(true, &BV{Value: []byte("ref-json")})}, End: refwire.End{Code: 0}, Header: http.Header{"X-Head": {"hv"}}}
+				jst, jhd, jbody, jtrl := js.Build()
+				out = append(out, wireBody{Name: "refwire-ok-json", Proto: p, Kind: kind, JSON: true, Status: jst, Header: jhd, Body: jbody, Trailer: jtrl})
+			}
 			if kind == KServer {
 				spec.End = refwire.End{Code: 9, Message: "pre%cond ☃", Meta: http.Header{"X-Trail": {"tv"}}}
 				st, hd, body, trl = spec.Build()
 				out = append(out, wireBody{Name: "refwire-error", Proto: p, Kind: kind, Status: st, Header: hd, Body: body, Trailer: trl})
 			}
+		}
+	}
+	// gRPC responses also as a peer that announces its trailers sends them (net/http then lists the
+	// announced names in Response.Trailer, with nil values, before and unless the trailers arrive)
+	for _, w := range append([]wireBody(nil), out...) {
+		if w.Proto == PGRPC && !w.Request && strings.HasPrefix(w.Name, "refwire") && len(w.Trailer) > 0 {
+			w.Header = w.Header.Clone()
+			var names []string
+			for k := range w.Trailer {
+				names = append(names, k)
+			}
+			sort.Strings(names)
+			w.Header.Set("Trailer", strings.Join(names, ", "))
+			w.Name += "-announced-trailers"
+			out = append(out, w)
 		}
 	}
 	// unary Connect bodies also as a peer with a known Content-Length sends them
